@@ -453,6 +453,16 @@ func genConsCase(r *Rand, tier string, w *bufio.Writer) {
 		}
 		total += ws[i]
 	}
+	// in half of the scenarios one validator is "needed": it holds more than one third of the weight, so no
+	// quorum forms without it; when it is also the lagging validator its frame-jumping roots are the ones
+	// that decide several frames within one Process call
+	needed := -1
+	if nv >= 2 && total < 1<<29 && r.Chance(1, 2) {
+		needed = r.Intn(nv)
+		others := total - ws[needed]
+		ws[needed] = others/2 + 1 + uint64(r.Intn(int(others/2)+1))
+		total = others + ws[needed]
+	}
 	valsStr := func(ids, ws []uint64) string {
 		p := make([]string, len(ids))
 		for i := range ids {
@@ -494,6 +504,9 @@ func genConsCase(r *Rand, tier string, w *bufio.Writer) {
 	lagger := uint64(0)
 	if r.Chance(1, 2) {
 		lagger = ids[r.Intn(nv)]
+		if needed >= 0 && r.Chance(2, 3) {
+			lagger = ids[needed]
+		}
 	}
 	ninst := 2 + r.Intn(2)
 	for k := 0; k < ninst; k++ {
